@@ -49,7 +49,20 @@ def rstrip(eng, st, s, args):
 
 
 def split(eng, st, s, args, node):
-    raise Unsupported("split")
+    """bytes.split(sep) = spec function split_on (pieces between the occurrences of a non-empty literal sep);
+    bytes.split() = ws_split (maximal runs of non-whitespace; uninterpreted, assumed)."""
+    if args and not isinstance(args[0], VNone):
+        sep = args[0]
+        if sep.py is None or len(sep.py) == 0:
+            raise Unsupported("split with a symbolic or empty separator")
+        r = eng.specs.apply(eng, st, "split_on", [VSeq(s.t, "bytes"), sep])
+        return VList(r.t, s.kind, "list")
+    f = z3.Function("ws_split", ISq, VSq)
+    eng.fr.assumed_used.add("bytes.split(): maximal runs of non-whitespace bytes (uninterpreted ws_split)")
+    from .values import wt_seq
+    L = f(s.t)
+    st.assume(*wt_seq(L, s.kind))
+    return VList(L, s.kind, "list")
 
 
 def decode(eng, st, s, args, kwargs, node):
